@@ -11,6 +11,12 @@
 (*         fermion_to_qubit_mapping(a+_p a_p, mapping, nso, n_electrons,    *)
 (*         up_then_down, spin) -- for scBK with the (n_e, spin) of the state*)
 (*   bad   number of gates in the circuit that are not plain X gates        *)
+(*   kind  "frame": before / after = the caller's vector argument before and  *)
+(*                after a call of a function of the module (get_mapped_vector,*)
+(*                vector_to_circuit, do_*_transform): must be identical.      *)
+(* "vec" records also come from histories: the same caller array encoded      *)
+(* twice in a row (any ordered pair of (mapping, ordering)) - the SECOND       *)
+(* result must encode the occupation the caller wrote into the array.          *)
 (***************************************************************************)
 EXTENDS C05Defs, Json, IOUtils
 
@@ -26,8 +32,12 @@ WellFormedJob(j) ==
   /\ (j.kind = "vec" => Len(j.occvec) = j.nso /\ \A p \in 1..j.nso : j.occvec[p] \in {0, 1})
   /\ (j.kind = "ref" => Admissible(j.nso, j.ne, j.spin, j.dflt))
 
+\* frame condition: a function of the module must leave the vector it was given bit-identical
+FrameOK(j) == Len(j.before) = Len(j.after) /\ \A q \in 1..Len(j.before) : j.before[q] = j.after[q]
+
 Verdict(j) ==
-  IF ~WellFormedJob(j) THEN "malformed"
+  IF j.kind = "frame" THEN (IF FrameOK(j) THEN "ok" ELSE "argument-modified")
+  ELSE IF ~WellFormedJob(j) THEN "malformed"
   ELSE IF j.bad > 0 THEN "not-a-basis-state-circuit"
   ELSE
     LET n   == j.n
